@@ -109,5 +109,9 @@ Definition three_backends_agree (lin_wt : prog -> Prop) : Prop :=
        fst (run_rv outer inner cs args) = fst (A64Sem.run_a64 outer inner ys args))
       \\/ heap_exhausted (fst (run_rv outer inner cs args)).
 ''')
-(root / "coq/Props/C08.v").write_text("\n".join(out))
+# the hand-written forward-simulation part (statements of Proof/RVSim*.v) is kept as it is
+MARK = "(* ===== FORWARD SIMULATION"
+old_text = (root / "coq/Props/C08.v").read_text() if (root / "coq/Props/C08.v").exists() else ""
+tail = ("\n" + old_text[old_text.index(MARK):]) if MARK in old_text else ""
+(root / "coq/Props/C08.v").write_text("\n".join(out) + tail)
 print("wrote coq/Props/C08.v with", len(items), "theorems")
